@@ -51,7 +51,9 @@ MODELLED = [
 ]
 ASSUMPTIONS = [
     "theorems: single-character separator occurring in no name, non-empty names, sibling names unique in the tree "
-    "being extended (what Node enforces); multi-character separators are covered by the tie only",
+    "being extended (what Node enforces); for multi-character separators the string interface is proved equal to the "
+    "component interface (strip_invariant_multi, sep_invariant_multi: names share no character with the separator), the "
+    "other theorems are then about components",
     "attribute keys are not Node members and not 'name' for add_path_to_tree/add_dict_to_tree_by_path",
 ]
 
@@ -868,7 +870,8 @@ LEVEL_TEXT = ("proof: Lean 4 kernel-checked theorems about the executable model 
               "insert_keeps_ids (every old node keeps address, identity, name, path and attributes; the addressed node is "
               "updated), insert_returns, attrs_exact / new_node_attrs / nulls_dropped_in_rows, different_root_refused, "
               "strip_invariant and sep_invariant (string interface = component interface for a one-character separator "
-              "occurring in no name), no_dup_mode (duplicates disallowed: raises, or returns exactly the duplicates-allowed "
+              "occurring in no name), strip_invariant_multi and sep_invariant_multi (the same for a separator of ANY length - '::', "
+              "'->' - sharing no character with a name, incl. any run of separator characters in front and behind), no_dup_mode (duplicates disallowed: raises, or returns exactly the duplicates-allowed "
               "result and keeps all names distinct), children_first_appearance / dict_to_tree_exact / rows_to_tree_exact / "
               "fold_exact (list_to_tree, dict_to_tree, the DataFrame constructors and the add_*_by_path folds, both "
               "duplicate settings: node set = prefix closure, each path once, children of every node a sublist of the "
@@ -879,7 +882,8 @@ LEVEL_NOTE = ("the per-call theorems are stated for duplicate_name_allowed=True 
               "set, no duplicates and child order for the other constructors; per-node attributes of the folds, "
               "root-attribute lookup, null dropping through pandas/polars and the duplicate-attribute refusal rest on the "
               "per-call theorems plus the correspondence check; "
-              "multi-character separators by the correspondence check only. The model is hand-written and tied to /repo by "
+              "the other theorems are stated for a one-character separator (multi-character separators: the two _multi theorems and "
+              "the correspondence check). The model is hand-written and tied to /repo by "
               "differential testing of all eight functions against the compiled model")
 TECHNIQUE = ("machine-checked proof (Lean 4) on an executable model + differential correspondence check against the real "
              "constructors (pandas and polars through the real libraries), model-free oracle on every case")
